@@ -96,11 +96,11 @@ pub proof fn lemma_preamble_kept(a: MV, b: MV)
     assert(f0[3].0 == f1[3].0 && same_shape(f0[3].1, f1[3].1));
 }
 """, mod="license", name="license_lemmas"))
-# MS-RDPBCGR 2.2.1.12.1.1 LICENSE_PREAMBLE.  DISCREPANCY: the document makes `flags` a plain byte (version 0x2 or 0x3, optionally | 0x80
-# EXTENDED_ERROR_MSG_SUPPORTED); the code reads it through Check::new(0x03), so the conforming message `ff 83 10 00 07 00 00 00 02 00 00 00 04 00 00 00`
-# (Valid Client error alert with the extended-error flag) is rejected.  Everything else is pinned from the document.
-PREAMBLE_FLAGS = "MV::U8(0)" if DOC_STRICT else "MV::Check(Box::new(MV::U8(3)))"
-PREAMBLE_CID = "preamble-as-documented" if DOC_STRICT else "preamble-as-documented-except-flags (as-implemented: checked constant 0x03; MS-RDPBCGR 2.2.1.12.1.1 also allows 0x02 and the 0x80 bit)"
+# MS-RDPBCGR 2.2.1.12.1.1 LICENSE_PREAMBLE: `flags` is a plain byte (version 0x2 or 0x3, optionally | 0x80 EXTENDED_ERROR_MSG_SUPPORTED).
+# The pinned tree read it through Check::new(0x03) and rejected the conforming `ff 83 10 00 07 00 00 00 02 00 00 00 04 00 00 00`:
+# repaired by a fix: commit (known_findings.json); the clause is the document's.
+PREAMBLE_FLAGS = "MV::U8(3)"
+PREAMBLE_CID = "preamble-as-documented"
 LF("preamble", ret="c", props=["C05", "C03"],
    # closure: "wMsgSize counts the 4 bytes of the preamble" -> the body has wMsgSize - 4 bytes
    closures={1: dict(params="size: &U16", ret="-> (r: MessageOption)", props="C03", cid="message-size-is-wMsgSize-minus-4",
@@ -265,6 +265,16 @@ SF("connect", props=["C17", "C02", "C03", "C05"], keys=True, fuel=5,
         assert(w0 + mcs::mcs_frame(uid, gl, client_info_pdu(info_packet(domain@, username@, password@, auto_logon, ext))) =~= mcs.written());
         assert(is_prefix(w0 + mcs::mcs_frame(uid, gl, client_info_pdu(info_packet(domain@, username@, password@, auto_logon, ext))), mcs.written()));
     }""", "before")],
+   # C03 "any accepted-licence variant": MS-RDPBCGR 2.2.8.1.1.2.1 the licensing PDU's security header has SEC_LICENSE_PKT (0x0080) set, possibly next to
+   # other flags (SEC_LICENSE_ENCRYPT_CS 0x0200 ...): the reply is refused for its flags ONLY when that bit is clear
+   claims=[(r"return Err\(.*Invalid Licence packet", 1, """proof {
+        reveal_with_fuel(same_shape, 3);
+        let h = header.fields(); let g = security_header_view()->Comp_0;
+        assert(h.len() == 2 && g.len() == 2);
+        assert(h[0].0 == g[0].0 && same_shape(g[0].1, h[0].1));
+        assert(h[0].0 == "securityFlag"@ && h[0].1 is U16);
+        assert(first_key(h, "securityFlag"@) == 0);
+        assert(h[0].1->U16_0 & 0x0080 == 0); }""", "before", "C03", "licence-reply-refused-only-without-SEC_LICENSE_PKT")],
    requires=["old(mcs).connected()", "old(mcs).server_known()", ("old(mcs).tls()"), "domain@.len() <= 512 && username@.len() <= 512 && password@.len() <= 512"],
    ensures=[("C17,C03", "client-info-first-with-exactly-these-credentials", """r is Ok ==> exists|ext: Seq<u8>| ext.len() == (if old(mcs).v5plus() { extended_info_len() } else { 0 })
                  && #[trigger] is_prefix(old(mcs).written() + mcs::mcs_frame(old(mcs).uid()->Some_0, old(mcs).chans()["global"@], client_info_pdu(info_packet(domain@, username@, password@, auto_logon, ext))), final(mcs).written())"""),
